@@ -29,6 +29,12 @@ pub assume_specification [i64::div_euclid] (x: i64, d: i64) -> (r: i64)
     requires d > 0, ensures r == (x as int) / (d as int);
 pub assume_specification [i64::saturating_add] (x: i64, y: i64) -> (r: i64)
     ensures r == (if x + y > i64::MAX { i64::MAX as int } else if x + y < i64::MIN { i64::MIN as int } else { x + y });
+pub assume_specification [i64::saturating_sub] (x: i64, y: i64) -> (r: i64)
+    ensures r == (if x - y > i64::MAX { i64::MAX as int } else if x - y < i64::MIN { i64::MIN as int } else { x - y });
+pub assume_specification [i32::saturating_sub] (x: i32, y: i32) -> (r: i32)
+    ensures r == (if x - y > i32::MAX { i32::MAX as int } else if x - y < i32::MIN { i32::MIN as int } else { x - y });
+pub assume_specification [i32::saturating_abs] (x: i32) -> (r: i32)
+    ensures r == (if x == i32::MIN { i32::MAX as int } else if x < 0 { -(x as int) } else { x as int });
 pub assume_specification [i64::abs] (x: i64) -> (r: i64)
     requires x > i64::MIN, ensures r == (if x < 0 { -(x as int) } else { x as int });
 '''
